@@ -3,7 +3,7 @@
 From Coq Require Import ZArith List Bool Lia ZifyBool.
 From RecordUpdate Require Import RecordSet.
 From Common Require Import Res.
-From Core Require Import World Hoare Model Step Reach ListLemmas Proofs_C03b Proofs_C02b Proofs_C10b Proofs_C02c.
+From Core Require Import World Hoare Model Step Reach ListLemmas Rel_Vtc Proofs_C03b Proofs_C02b Proofs_C10b Proofs_C02c.
 Import ListNotations RecordSetNotations.
 Open Scope Z_scope.
 
@@ -113,6 +113,51 @@ Theorem set_random_draws_full_order f w :
 Proof.
   cbv zeta. cbn [run_op]. unfold set_mode, emit, do_shuffle, bind, get, modify, ret. cbn.
   destruct (negb (Bool.eqb (random w) true)); cbn; repeat split; reflexivity.
+Qed.
+
+
+(* every tracklist change redraws the order: a complete new order when random is on (this is what
+   a restore with random on relies on as well), an empty one otherwise *)
+Definition sh_keep (w w' : world) : Prop :=
+  random w' = random w /\ seed w' = seed w /\ World.tl w' = World.tl w.
+Lemma sh_keep_refl w : sh_keep w w. Proof. repeat split. Qed.
+Lemma sh_keep_trans a b c : sh_keep a b -> sh_keep b c -> sh_keep a c.
+Proof. unfold sh_keep. intros (A1 & A2 & A3) (B1 & B2 & B3). repeat split; congruence. Qed.
+Ltac sh_solver := let w := fresh "w" in intros w; unfold sh_keep; cbn; repeat split; reflexivity.
+Ltac go := relp sh_keep_refl sh_keep_trans sh_solver.
+
+Lemma emit_sh e : rel sh_keep (emit e). Proof. unfold emit. go. Qed.
+Lemma bcall_sh : rel sh_keep bcall. Proof. unfold bcall. go. Qed.
+Lemma acall_log_sh c : rel sh_keep (acall_log c). Proof. unfold acall_log. go. Qed.
+Lemma enqueue_sh n : rel sh_keep (enqueue n). Proof. unfold enqueue. go. Qed.
+#[local] Hint Resolve emit_sh bcall_sh acall_log_sh enqueue_sh : pres.
+Lemma env_get_position_sh : rel sh_keep env_get_position. Proof. unfold env_get_position. go. Qed.
+#[local] Hint Resolve env_get_position_sh : pres.
+Lemma get_time_position_sh : rel sh_keep get_time_position. Proof. unfold get_time_position. go. Qed.
+Lemma env_set_state_sh st : rel sh_keep (env_set_state st). Proof. unfold env_set_state. go. Qed.
+Lemma set_state_sh st : rel sh_keep (set_state st). Proof. unfold set_state. go. Qed.
+#[local] Hint Resolve get_time_position_sh env_set_state_sh set_state_sh : pres.
+Lemma stop_sh : rel sh_keep stop. Proof. unfold stop. go. Qed.
+#[local] Hint Resolve stop_sh : pres.
+Lemma on_tracklist_change_sh : rel sh_keep on_tracklist_change. Proof. unfold on_tracklist_change. go. Qed.
+
+Theorem tracklist_change_redraws w r w' :
+  increase_version shuf w = (r, w') ->
+  r = Ok tt /\ World.tl w' = World.tl w
+  /\ shuffled w' = (if random w then shuf (seed w) (World.tl w) else []).
+Proof.
+  unfold increase_version. intros E.
+  set (w0 := w <| version := version w + 1 |>) in *.
+  assert (E0 : modify (fun w => w <| version := version w + 1 |>) w = (Ok tt, w0)) by reflexivity.
+  rewrite (bind_ok _ _ w tt w0 E0) in E.
+  destruct (on_tracklist_change w0) as [r1 w1] eqn:E1.
+  destruct (on_tracklist_change_sh w0 r1 w1 E1) as (R1 & S1 & T1).
+  change (random w0) with (random w) in R1. change (seed w0) with (seed w) in S1. change (World.tl w0) with (World.tl w) in T1.
+  assert (Hr1 : r1 = Ok tt).
+  { destruct (Rel_Vtc.on_tracklist_change_frame w0) as ([] & w1' & E1' & _). rewrite E1 in E1'. inversion E1'. reflexivity. }
+  subst r1. rewrite (bind_ok _ _ w0 tt w1 E1) in E.
+  unfold trigger_tracklist_changed, do_shuffle, emit, bind, get, modify, ret in E.
+  rewrite R1 in E. destruct (random w); cbn in E; inversion E; subst; cbn; rewrite ?S1, ?T1; repeat split; reflexivity.
 Qed.
 
 End P.
